@@ -5,8 +5,37 @@ import z3
 _ctr = itertools.count()
 
 
+FRESH_LOG = None  # when a list is installed here, every fresh constant is recorded (comprehension skolemisation)
+
+
 def fresh(prefix, sort):
-    return z3.Const("%s!%d" % (prefix, next(_ctr)), sort)
+    c = z3.Const("%s!%d" % (prefix, next(_ctr)), sort)
+    if FRESH_LOG is not None:
+        FRESH_LOG.append(c)
+    return c
+
+
+def fresh_func(prefix, *sorts):
+    """A fresh uninterpreted function (witness / permutation / ghost).  Not skolemisable: marks the log."""
+    if FRESH_LOG is not None:
+        FRESH_LOG.append(None)
+    return z3.Function("%s!%d" % (prefix, next(_ctr)), *sorts)
+
+
+def start_fresh_log():
+    global FRESH_LOG
+    old = FRESH_LOG
+    FRESH_LOG = []
+    return old
+
+
+def stop_fresh_log(old):
+    global FRESH_LOG
+    log = FRESH_LOG
+    FRESH_LOG = old
+    if old is not None:
+        old.extend(log)
+    return log
 
 
 def fresh_id():
